@@ -9,6 +9,8 @@ from ..core import FUNC, call_attr, calls_in, const, dotted, is_const, kwarg, no
 from .c01 import _fmt_in
 
 EXPLANATION = [
+    "C02.reader-cancel: the asynchronous reader's next_packet() (several reads per packet, no state kept across calls) is awaited directly at every call site, never under wait_for / a cancelling wrapper.",
+    'C02.threadsafe: every scheduling call onto the event loop in the USB transports (whose callbacks run on the libusb / pyusb thread) is call_soon_threadsafe.',
     'C02.reset-callers: the framing state of PacketParser (the fields reset() assigns) is reset or written only by __init__ and feed_data: no other method (set_packet_sink, ...) throws away the position in the stream.',
     'C02.bounded-buffers: no transport hands packets over through a bounded deque / Queue (a full one drops or raises in a callback that only logs): every packet split out of the byte stream reaches the sink.',
     'C02.shared-state: no class of the anchored modules keeps per-instance state in an object shared by all instances (an empty mutable container or synchronisation object as class-level default that is read through self and not rebound in __init__, or as a dataclass field default); process-wide registries are listed by name.',
@@ -287,7 +289,49 @@ def bounded_buffers_rule(ctx):
     g.bounded_buffers(ctx, 'C02.bounded-buffers', ['bumble.transport.common', 'bumble.transport.usb', 'bumble.transport.pyusb', 'bumble.transport.tcp_server', 'bumble.transport.tcp_client', 'bumble.transport.ws_server', 'bumble.transport.ws_client', 'bumble.transport.udp', 'bumble.transport.unix', 'bumble.transport.serial', 'bumble.transport.hci_socket', 'bumble.transport.vhci'])
 
 
+def threadsafe(ctx):
+    """Packets framed on the libusb / pyusb thread are handed to the asyncio side: from a foreign thread only
+    call_soon_threadsafe wakes the loop; plain call_soon appends to the ready list of a sleeping loop."""
+    R, p = ctx.r, ctx.p
+    rule = 'C02.threadsafe'
+    n = 0
+    for mn in ('bumble.transport.usb', 'bumble.transport.pyusb'):
+        m = p.modules.get(mn)
+        if m is None:
+            R.bad(rule, mn, 'anchor missing')
+            continue
+        for c in [x for x in ast.walk(m.tree) if isinstance(x, ast.Call) and isinstance(x.func, ast.Attribute) and x.func.attr in ('call_soon', 'call_soon_threadsafe', 'call_later', 'call_at')]:
+            n += 1
+            R.check(c.func.attr == 'call_soon_threadsafe', rule, f'{p.qual_of(c)} | {norm(c)[:50]}', 'scheduled with call_soon_threadsafe',
+                    f'`{norm(c)[:60]}` schedules onto the event loop with {c.func.attr} in a module whose callbacks run on the USB thread: the loop is not woken, framed packets sit in the ready list until something else wakes it', f'{m.rel}:{c.lineno}')
+    R.check(n >= 3, rule, 'bumble.transport.usb, bumble.transport.pyusb | loop scheduling', f'{n} scheduling calls, all thread-safe', f'only {n} scheduling calls found')
+
+
+def reader_cancel(ctx):
+    """AsyncPacketReader.next_packet reads a packet in several awaits (type, header, body) and keeps no state between
+    calls: cancelling it half-way (a timeout wrapper) discards what was consumed and framing restarts mid-packet."""
+    R, p = ctx.r, ctx.p
+    rule = 'C02.reader-cancel'
+    n = 0
+    for mn, m in sorted(p.modules.items()):
+        if not mn.startswith('bumble.transport'):
+            continue
+        for c in [x for x in ast.walk(m.tree) if isinstance(x, ast.Call) and call_attr(x) == 'next_packet']:
+            par = getattr(c, '_parent', None)
+            fn = c
+            while fn is not None and not isinstance(fn, FUNC):
+                fn = getattr(fn, '_parent', None)
+            if not isinstance(fn, ast.AsyncFunctionDef):
+                continue   # the blocking reader
+            n += 1
+            R.check(isinstance(par, ast.Await), rule, f'{p.qual_of(c)} | {norm(c)[:50]}', 'awaited directly (never under wait_for / a timeout)',
+                    f'`{norm(getattr(par, "_parent", par))[:80]}`: the asynchronous reader is run under a wrapper that can cancel it between two of its reads; the bytes already consumed are lost and the rest of the packet is framed as new packets', f'{m.rel}:{c.lineno}')
+    R.check(n >= 1, rule, 'bumble.transport | next_packet call sites', f'{n} asynchronous call sites', 'no call site found')
+
+
 RULES = [
+    ('C02.reader-cancel', reader_cancel),
+    ('C02.threadsafe', threadsafe),
     ('C02.reset-callers', parser_reset_callers),
     ('C02.bounded-buffers', bounded_buffers_rule),
     ('C02.shared-state', shared_state_rule),
